@@ -74,6 +74,7 @@ var VerifEntries = map[string]func(){
 	"VerifC06_Rekey":           VerifC06_Rekey,
 	"VerifC06_Signatures":      VerifC06_Signatures,
 	"VerifC06_SignaturesThree": VerifC06_SignaturesThree,
+	"VerifC06_Unsigned":        VerifC06_Unsigned,
 	"VerifC14_Assign":          VerifC14_Assign,
 	"VerifC14_Relay":           VerifC14_Relay,
 	"VerifC14_Fees":            VerifC14_Fees,
